@@ -48,6 +48,7 @@ structure Oracle where
   sdHandled : List String := []              -- the running shutdown has finished stopping these names
   exitAfterSd : List String := []            -- running at shutdown begin; command exited by itself after the request
   sdSeq : List (String × Nat) := []          -- instance numbers at shutdown begin
+  probersDown : List String := []            -- signalled by a stop; readiness prober not started again since
   startOnActive : List (String × String) := []   -- (api id, name): start requested on a process that has been
                                                  -- Running with a live command, in one instance, ever since
   triggers : List (String × Int × Bool) := []   -- (process, code, genuine)
@@ -143,6 +144,11 @@ def actor (op : List String) : String :=
 
 def bump (l : List (String × Nat)) (k : String) : List (String × Nat) := setKV l k (lookupD l k 0 + 1)
 
+def parseTh (th : String) : List (String × String) :=
+  (csv th).filterMap fun t => match t.splitOn "@" with
+    | [k, l] => some (k, l.replace "*" "")
+    | _ => none
+
 /-- process one observation; returns the updated oracle and the failures it raises -/
 def onObs (o : Oracle) (op : List String) (cmdAfter : List String)
     (st : List (String × (String × Int × Nat × String))) (ob : String) : Oracle × List String :=
@@ -167,7 +173,10 @@ def onObs (o : Oracle) (op : List String) (cmdAfter : List String)
   | ["done", x] =>
     let ex := (lookupD st x ("", 0, 0, "")).2.1
     let o := { o with doneEver := addS o.doneEver x }
-    (if ex = 0 then { o with everDoneOk := addS o.everDoneOk x } else o, [])
+    -- ended successfully: reported exit code 0, and the last command that ran (if any) exited with 0
+    -- (`lastCode` is kept per name: it is only consulted when no two instances of `x` ever coexisted)
+    let okEnd := ex = 0 && (!(o.launchedEver.contains x) || o.ovNames.contains x || lookupD o.lastCode x 0 = 0)
+    (if okEnd then { o with everDoneOk := addS o.everDoneOk x } else o, [])
   | ["launch", x] =>
     let d := decl o x
     -- C01: every dependency that was found registered must have met its condition
@@ -213,7 +222,12 @@ def onObs (o : Oracle) (op : List String) (cmdAfter : List String)
     let dies := wasAlive && (sig == "9" || d.onSignal != "ign")
     let code : Int := if sig == "9" then -1 else d.onSignal.toInt?.getD 0
     let o := if dies then { o with lastCode := setKV o.lastCode x code, natural := delS o.natural x } else o
-    let o := { o with sdSignalled := addS o.sdSignalled x }
+    -- the first signal of a stop call comes after the probers were stopped; the SIGKILL escalation
+    -- after the timeout (sent from `stop:waitkill`) does not stop them again
+    let me := match op with | ["s", "run", key] => key | _ => ""
+    let escalation := (parseTh o.lastTh).any fun (kl : String × String) => kl.1 == me && kl.2 == "stop:waitkill"
+    let o := { o with sdSignalled := addS o.sdSignalled x,
+                      probersDown := if escalation then o.probersDown else addS o.probersDown x }
     (o, c12)
   | ["sdorder", l] => ({ o with runAtShutdown := csv l, stopBegun := (csv l).foldl addS o.stopBegun, shutdownBegun := true,
                                 sdSeq := o.seenSeq, exitAfterSd := [] }, [])
@@ -271,11 +285,6 @@ def dupes (l : List String) : List String :=
   (l.foldl (fun (acc : List String × List String) x =>
     if acc.1.contains x then (acc.1, addS acc.2 x) else (acc.1 ++ [x], acc.2)) ([], [])).2
 
-def parseTh (th : String) : List (String × String) :=
-  (csv th).filterMap fun t => match t.splitOn "@" with
-    | [k, l] => some (k, l.replace "*" "")
-    | _ => none
-
 def procNameOfKey (k : String) : Option String :=
   if k.startsWith "proc:" then some (((k.drop 5).toString.splitOn "#").headD "") else none
 
@@ -325,7 +334,7 @@ def feed (o : Oracle) (op : List String) (impl : String) : Oracle × String :=
           { o with seenSeq := setKV o.seenSeq x n, fresh := addS o.fresh key,
 
                    found := o.found.filter (·.1 ≠ x), launchesInst := setKV o.launchesInst x 0,
-                   exitAfterSd := delS o.exitAfterSd x }
+                   exitAfterSd := delS o.exitAfterSd x, probersDown := delS o.probersDown x }
         else o
       | _ => o
     | _ => o) o
@@ -347,6 +356,8 @@ def feed (o : Oracle) (op : List String) (impl : String) : Oracle × String :=
           { o with startOnActive := o.startOnActive ++ [(id, x)] } else o
       | _ => o
     | ["s", "run", key] =>
+      let o := if key.startsWith "pstart:" then
+          { o with probersDown := o.probersDown.filter fun x => !(key.startsWith ("pstart:" ++ x ++ "_ready")) } else o
       if key.startsWith "probe:" && obs.any (fun (ob : String) => ob.startsWith "stop ") then
         match obs.find? (fun (ob : String) => ob.startsWith "stop ") with
         | some s => { o with fatalPending := addS o.fatalPending ((words s).getD 1 "") }
@@ -407,6 +418,14 @@ def feed (o : Oracle) (op : List String) (impl : String) : Oracle × String :=
     if isTerminal s && cmd.contains n then some s!"C09:terminal-while-alive {n} {s}" else none
   let fails := fails ++ st.filterMap fun (n, (_, _, _, h)) =>
     if h == "R" && !(o.readySince.contains n) then some s!"C10:ready-without-success {n}" else none
+  -- C10: the stop path stops the probers before it signals the command; until they are started again
+  -- no probe result may touch the reported readiness
+  let fails := fails ++ (match op with
+    | ["s", "probe", x, _] =>
+      let before := (lookupD (parseSt o.lastSt) x ("", 0, 0, "")).2.2.2
+      let after := (lookupD st x ("", 0, 0, "")).2.2.2
+      if o.probersDown.contains x && before != after then [s!"C10:probe-result-applied-after-stop {x} {before}->{after}"] else []
+    | _ => [])
   let quiescent := !(th.contains '*') && cmd.isEmpty
   let soa := o.startOnActive.filter fun (ix : String × String) =>
     isRunningSt (lookupD o.status ix.2 "") && cmd.contains ix.2
